@@ -1472,6 +1472,26 @@ def suite_bigtransfer(rng, tier):
         j = s.encap_frag(pdu, s.ops[i]["reg"], bs_zero(4200), cout=s.ops[i]["reg"])
         s.decap_if("p:%d" % s.ops[j]["reg"], of=j)
         out.append(s)
+    # trains of MANY fragments (hundreds: tiny buffers), with and without header extensions: no fragment count
+    # may limit a reassembly
+    for n, (pl, bl, exts) in enumerate([(3000, 13, None), (6000, 13, None), (2600, 8, None), (1500, 13, [(0x0301, bytes(4))]),
+                                        (65000, 120, None)]):
+        s = Session("manyfrags%d" % n)
+        pdu = bs_gen(n + 177, pl)
+        s.enc("new")
+        s.dec_new(2, pl, None)
+        s.prov(pl, 0)
+        s.prov(pl, 0)
+        i = s.encap(pdu, 7, 0x0800, LBL_A3, bs_const(1, 40), exts=exts)
+        s.decap_if("p:%d" % s.ops[i]["reg"], of=i)
+        chain = s.ops[i]["reg"]
+        per = max(1, bl - 3)
+        for _ in range(pl // per + 3):
+            j = s.encap_frag(pdu, chain, bs_zero(bl), cout=chain)
+            s.decap_if("p:%d" % s.ops[j]["reg"], of=j)
+        j = s.encap_frag(pdu, chain, bs_zero(64), cout=chain)
+        s.decap_if("p:%d" % s.ops[j]["reg"], of=j)
+        out.append(s)
     # PDUs just beyond the total length must be refused on the fragmenting path
     for n, (pl, lab) in enumerate([(65534, LBL_A6), (65528, LBL_A6), (65527, LBL_A6), (65531, LBL_A3), (65530, LBL_A3),
                                    (65534, LBL_BC), (65533, LBL_BC), (65536, LBL_BC), (70000, LBL_A6)]):
